@@ -95,6 +95,43 @@ func minimise(d *RunDesc, fails func(*RunDesc) bool, deadline time.Time) *RunDes
 		cur = build(base, keep)
 	}
 
+	// 1b. blank shared-world entries no remaining operation refers to (indices stay)
+	if len(cur.World) > 0 && time.Now().Before(deadline) {
+		usedObj := map[int]bool{}
+		usedRep := map[int]bool{}
+		for _, t := range cur.Tasks {
+			for _, op := range t {
+				if op.Obj != nil && op.Obj.Shared {
+					usedObj[op.Obj.I] = true
+				}
+				if op.Donor != nil && op.Donor.Shared {
+					usedObj[op.Donor.I] = true
+				}
+				if op.Rep != nil && op.Rep.Shared {
+					usedRep[op.Rep.I] = true
+				}
+			}
+		}
+		c := cur.clone()
+		for i := range c.WorldReps {
+			if usedRep[i] {
+				usedObj[c.WorldReps[i].Obj] = true
+			} else {
+				c.WorldReps[i].Obj = -1
+			}
+		}
+		changed := false
+		for i := range c.World {
+			if !usedObj[i] && c.World[i].Vec != "" {
+				c.World[i].Vec = ""
+				changed = true
+			}
+		}
+		if changed && fails(c) {
+			cur = c
+		}
+	}
+
 	// 2. drop context switches (prefer fewer)
 	if len(cur.Sched.Explicit) > 0 {
 		base := cur
